@@ -195,7 +195,109 @@ def _from_creation(fn, name_expr, at, creation) -> bool:
     return any(k == "expr" and pl is creation.ast for k, pl in value_sources(fn, name_expr, at))
 
 
-def check_adopted(ctx, rule_prefix="link"):
+def _schema_checked(an, fn, sp, u, holds_p, p, starts):
+    """Is the use *u* of the caller's configuration dominated by a test that its schema is the one the receiving field creates
+    configurations from?  Accepted: `<p>._schema is E` known true, also inside `E is None or ...` known true / `E is not None and
+    <p>._schema is not E` known false (no expected schema: the field holds no configurations), where E does not come from p itself,
+    is not a constant and is not the receiving configuration's own schema."""
+    from engine.flow import guard_atoms, none_test
+
+    def schema_side(e, at):
+        return isinstance(e, ast.Attribute) and e.attr == "_schema" and holds_p(e.value, at)
+
+    def other_ok(e, at):
+        srcs = sp.sources(e, at) if isinstance(e, (ast.Name, ast.IfExp, ast.BoolOp)) else [("expr", e)]
+        real = [(k, pl) for k, pl in srcs if not (k == "expr" and isinstance(pl, ast.Constant))]
+        if not real:
+            return False
+        for k, pl in real:
+            if k == "param" and pl == p:
+                return False
+            if k == "expr":
+                for x in ast.walk(pl):
+                    if isinstance(x, ast.Name) and holds_p(x, at):
+                        return False
+                if isinstance(pl, ast.Attribute) and pl.attr == "_schema" and isinstance(pl.value, ast.Name) and pl.value.id == fn.self_name:
+                    return False
+        return True
+
+    def identity(e, want_same, at):
+        """e says (want_same) / denies (not want_same) that p's schema is E; returns E"""
+        if isinstance(e, ast.Compare) and len(e.ops) == 1:
+            same = isinstance(e.ops[0], (ast.Is, ast.Eq))
+            diff = isinstance(e.ops[0], (ast.IsNot, ast.NotEq))
+            if (same and want_same) or (diff and not want_same):
+                a, b = e.left, e.comparators[0]
+                if schema_side(a, at) and other_ok(b, at):
+                    return b
+                if schema_side(b, at) and other_ok(a, at):
+                    return a
+        return None
+
+    def passing_label(e, t):
+        """the outcome of test e under which p's schema is the expected one (or no schema is expected); None: not such a test"""
+        if isinstance(e, ast.UnaryOp) and isinstance(e.op, ast.Not):
+            r = passing_label(e.operand, t)
+            return None if r is None else (not r)
+        if identity(e, True, t) is not None:
+            return True
+        if identity(e, False, t) is not None:
+            return False
+        if isinstance(e, ast.BoolOp):
+            # `E is None or same` true  /  `E is not None and different` false
+            is_or = isinstance(e.op, ast.Or)
+            found, rest_ok = None, True
+            for v in e.values:
+                other = identity(v, is_or, t)
+                if other is not None and found is None:
+                    found = other
+                    continue
+                nt = none_test(v, is_or) or (None if is_or else (v if isinstance(v, ast.Name) else None))
+                if nt is None:
+                    rest_ok = False
+            if found is not None and rest_ok:
+                return is_or
+        return None
+
+    g = an.cfg(fn)
+    tests = {}
+    for t in g.nodes:
+        if t.kind == "test" and t in sp.nodes and isinstance(t.ast, ast.expr):
+            lbl = passing_label(t.ast, t)
+            if lbl is not None:
+                tests[t] = lbl
+    if not tests:
+        return False
+    # the flow graph evaluates `and` / `or` operand by operand: `E is not None` failing (no schema expected) passes as well
+    expected = set()
+    for t in tests:
+        for x in ast.walk(t.ast):
+            if isinstance(x, ast.Compare) and len(x.ops) == 1:
+                for side, oth in ((x.left, x.comparators[0]), (x.comparators[0], x.left)):
+                    if schema_side(side, t) and isinstance(oth, ast.Name):
+                        expected.add(oth.id)
+    for t in g.nodes:
+        if t.kind == "test" and t in sp.nodes and t not in tests and isinstance(t.ast, ast.expr):
+            for want_none in (True, False):
+                inner = none_test(t.ast, want_none)
+                if isinstance(inner, ast.Name) and inner.id in expected:
+                    tests[t] = want_none      # `E is None` true / `E is not None` false
+            if isinstance(t.ast, ast.Name) and t.ast.id in expected:
+                tests[t] = False              # `if E and ...`
+    # under "p is a configuration": no path from where p enters (the function, or the local that is used) to the use that leaves
+    # every such test by its other outcome
+    starts = [st for st in starts if st is not None] or [g.entry]
+    ef = lambda a_, b_, l_: sp.edge_ok(a_, b_, l_) and not (a_ in tests and l_ == tests[a_])
+    for st in starts:
+        # the test may sit before the copy into the local that is used, or between the copy and the use
+        to_copy = st is g.entry or g.path(g.entry, lambda x, st=st: x is st, may_raise=lambda x: False, edge_filter=ef) is not None
+        to_use = g.path(st, lambda x: x is u, may_raise=lambda x: False, from_successors=st is not g.entry and st is not u, edge_filter=ef) is not None
+        if to_copy and to_use:
+            return False
+    return True
+
+
+def check_adopted(ctx, rule_prefix="link", schema_rule=None):
     """A configuration object handed in by the caller (assigned to a sub-configuration field, appended to a list of
     configurations) is adopted: _parent (and _key; _container for list items) are set before it is stored / returned."""
     an, model = ctx.an, ctx.model
@@ -280,6 +382,13 @@ def check_adopted(ctx, rule_prefix="link"):
             wanted = ["_parent", "_key"] + (["_container"] if fn.name == "_validate" else [])
             for what, u in uses:
                 nsites += 1
+                if schema_rule is not None:
+                    okc = _schema_checked(an, fn, sp, u, holds_p, p, starts_from_p(u.ast.value, u))
+                    ctx.ob(schema_rule, fn, "%s._schema tested before the configuration is %s" % (p, what), okc,
+                           "a configuration handed in is %s only when it was created from the schema of the receiving field" % what if okc else
+                           "a configuration created from any schema is %s: the values read below this field were validated by another "
+                           "schema's fields, not by the ones declared here" % what, node=u)
+                    continue
                 for attr in wanted:
                     used = u.ast.value
                     links = {m for m in g.nodes if m.kind == "assign" and isinstance(m.ast, ast.Assign) and any(
